@@ -120,4 +120,19 @@ CHECKS = {
                         "a call that does not return within 30 s is a violation only when its goroutine is blocked in sync.(*Mutex).Lock under an ice frame; anything else is reported as inconclusive",
                         COMMON_ASSUMPTIONS[0]],
     },
+    "C09": {
+        "level": "exploration",
+        "tests": [
+            {"name": "TestC09ConcSmall", "quick": 300, "thorough": 16000, "race": True, "env": {"GORACE": "halt_on_error=1"}, "min_per_shard": 100},
+            {"name": "TestC09ConcBlocks", "quick": 120, "thorough": 4000, "race": True, "env": {"GORACE": "halt_on_error=1"}, "min_per_shard": 50},
+            {"name": "TestC09NestSmall", "quick": 600, "thorough": 10000},
+            {"name": "TestC09NestBlocks", "quick": 600, "thorough": 10000},
+            {"name": "TestC09Regress", "quick": 0},
+            {"name": "TestC09NestBlocks", "quick": None, "thorough": 2000, "race": True, "env": {"GORACE": "halt_on_error=1"}, "max_shards": 4},
+        ],
+        "assumptions": ["interleavings are SAMPLED by the Go scheduler (GOMAXPROCS drawn from {2,4,16}, start barrier, drawn Gosched points), not enumerated; the claim is 'no race report and no wrong result on the generated concurrent programs', not race freedom",
+                        "the Go race detector is happens-before based: it reports two unsynchronised accesses that occurred in one run whatever their order, so detection depends mainly on which operations run concurrently, which the generator controls",
+                        "the re-entrancy half is sequential and deterministic",
+                        COMMON_ASSUMPTIONS[0]],
+    },
 }
